@@ -386,4 +386,4 @@ pub fn run(args: &Args) {
 // which mechanism models exist on the Coq side (coq/C09/Cases.v must know the constructor)
 const MODEL_SORTED: bool = true;
 const MODEL_INTVEC: bool = false;
-const MODEL_ZIP: bool = false;
+const MODEL_ZIP: bool = true;
